@@ -36,7 +36,7 @@ def gen_case(rng, maxops):
     used = set([()])
     for _ in range(rng.range(2, maxops)):
         k = rng.weighted([("join", 6), ("name", 3), ("parent", 3), ("abs", 1), ("mkdir", 5), ("mkfile", 5), ("stat", 4), ("size", 4),
-                          ("list", 3), ("visit", 2), ("nested", 2)])
+                          ("list", 3), ("visit", 2), ("nested", 2), ("remove", 2)])
         if k == "join":
             lines.append([20] + enc(rand_path(rng) if rng.chance(9, 10) else []) + enc(rand_name(rng)))
         elif k == "name":
@@ -62,6 +62,22 @@ def gen_case(rng, maxops):
             else:
                 lines.append([41, rng.choice([0, 0, 1, 7, 100, 4096, 65536, rng.range(0, 3000)]) if not rng.chance(1, 12)
                               else rng.choice([(1 << 31) + 1, (1 << 32) + 5, (1 << 31) - 1])] + p)   # sparse files: sizes are size_t, not int
+        elif k == "remove":
+            # remove a file or an empty directory; the name may come back as the other kind later (long-lived Path objects
+            # in the harness were asked about it before)
+            cands = [f for f in files] + [d for d in dirs if d and not any(len(x) > len(d) and x[:len(d)] == d for x in dirs + files)]
+            if not cands: continue
+            p = rng.choice(cands)
+            lines.append([50] + p)
+            lines.append([42] + p)
+            if p in files: files.remove(p)
+            else: dirs.remove(p)
+            used.discard(tuple(p))
+            if rng.chance(2, 3):
+                if rng.chance(1, 2): lines.append([41, rng.choice([0, 5, 300])] + p); files.append(p)
+                else: lines.append([40] + p); dirs.append(p)
+                used.add(tuple(p))
+            lines.append([rng.choice([50, 51, 52])] + p)
         elif k == "nested":
             deep = sorted(dirs, key=lambda d: -sum(150 if x >= 15 else 1 for x in d))
             p = list(deep[0] if rng.chance(2, 3) else rng.choice(dirs))
